@@ -99,6 +99,8 @@ def label(a):
         s += "(p%d)" % a["p"]
     elif s == "WriteCF":
         s += "(%d)" % a["k"]
+    elif s == "ImportReset":
+        s += "(%s)" % "-".join(str(x) for x in a["batch"])
     if a.get("res") not in (None, "ok"):
         s += "=" + a["res"]
     return s
